@@ -77,6 +77,8 @@ def _gen_case(rng, flavor=None, size=None):
                 committed |= {b[1] for b in body if b[0] == 'blob'}
                 ntx += 1
         elif r < 0.9 and ntx > 0:
+            if flavor == 'fs' and rng.random() < 0.25:
+                ops.append(['reopen'])
             if flavor == 'fs' and rng.random() < 0.3:
                 ops.append(['failpack', rng.choice([0, 1, 1])])      # abandoned pack (disk full), then …
             ops.append(['pack', rng.randrange(0, 6), rng.choice([0, 1, 1])])
@@ -99,7 +101,7 @@ def gen_data(rng):
         return ''
     if r < 0.9:
         return bytes(rng.randrange(97, 123) for _ in range(rng.randrange(1, 9))).hex()
-    return 'R%d:%d' % (rng.choice([25, 100, 9000, 70000]), rng.randrange(1000))
+    return 'R%d:%d' % (rng.choice([25, 100, 9000, 65536, 65537, 70000, 70000, 200000]), rng.randrange(1000))
 
 
 def decode_data(s):
@@ -425,6 +427,12 @@ def run_case(case, root, ck=None):
                           bad('C13:other-storage-blob-files', 'the second storage holds %d blob files for %d committed '
                               'revisions' % (n, others[0]))
                       check('other-storage')
+                  elif kind == 'reopen':
+                      if txn is not None or flavor != 'fs':
+                          continue
+                      env.reopen()
+                      S = env.storage
+                      check('reopen')
                   elif kind == 'failpack':
                       if txn is not None or not L.txns or flavor != 'fs':
                           continue
